@@ -6,7 +6,7 @@ from checks import servers
 from checks.common import swarm, thread_label
 
 ID = 'C11'
-LEVEL = 'fault_enumeration'
+LEVEL = 'exploration'
 NEEDS = ('threads', 'aio', 'proc')
 PROC_READY = True
 QUICK = dict(runs=5000, wall=85)
